@@ -230,7 +230,7 @@ Proof.
     + unfold pc_ok. simpl. destruct (pred (t_rem (s_thr s t))); simpl; exact I.
   - (* RWaitSeg *) inv_some Hs. pc_only HB Hsh Hall t. exact I.
   - (* RWaitOp *)
-    destruct (s_cursor s =? t_pos (s_thr s t)); inv_some Hs; pc_only HB Hsh Hall t; exact I.
+    destruct (s_cursor s =? t_pos (s_thr s t)); [destruct (Nat.eqb ch 1); [|destruct (Nat.eqb ch 2)]|]; inv_some Hs; pc_only HB Hsh Hall t; exact I.
   - discriminate.
   - (* KStart *)
     destruct (t_rem (s_thr s t)); inv_some Hs; pc_only HB Hsh Hall t; exact I.
@@ -277,7 +277,7 @@ Proof.
            ++ eapply mheld_others; eauto. rewrite Epc. reflexivity.
            ++ right. eapply mheld_others; eauto. rewrite Epc. reflexivity.
   - (* KWaitOp *)
-    destruct (s_cursor s =? t_pos (s_thr s t)); inv_some Hs; pc_only HB Hsh Hall t; exact I.
+    destruct (s_cursor s =? t_pos (s_thr s t)); [destruct (Nat.eqb ch 1); [|destruct (Nat.eqb ch 2)]|]; inv_some Hs; pc_only HB Hsh Hall t; exact I.
   - discriminate.
   - (* KUnlock *)
     inv_some Hs.
